@@ -39,4 +39,8 @@ struct Init {
 } init;
 }  // namespace
 
+// Freed 64 KiB objects would pile up in ASan's default 256 MiB quarantine (> 1 GiB resident per shard);
+// use-after-free detection is not what this harness relies on. Options given in ASAN_OPTIONS still win.
+extern "C" const char *__asan_default_options() { return "quarantine_size_mb=16"; }
+
 int main(int argc, char **argv) { return verif::harnessMain(argc, argv); }
